@@ -192,7 +192,10 @@ def seq_ops(job):
     seed = job["seed"]
     ops = [("merkle", {"seed": seed, "n": n, "equal": False}) for n in (1, 2, 3, 5, 6, 7)] + [("merkle", {"seed": seed, "n": 5, "equal": True})]
     for h, reg, sl, rw, cm in ((0, False, 4, "default", False), (150, False, 4, "default", False), (150, True, 4, "default", True), (210000, False, 96, "subsidy", False),
-                               (17, True, 99, "over", False), (500000, False, 0, "half", True)):
+                               (17, True, 99, "over", False), (500000, False, 0, "half", True),
+                               # many halvings: 33 and 64 on either schedule (the subsidy is 0 from the 33rd on; shifts by >= 64 bits)
+                               (4950, True, 4, "default", False), (9600, True, 4, "over", False), (6_930_000, False, 4, "default", False),
+                               (13_440_000, False, 4, "over", True)):
         ops.append(("coinbase", {"seed": seed, "height": h, "regtest": reg, "slen": sl, "reward": rw, "commit": cm}))
     return ops
 
@@ -233,7 +236,7 @@ def run_job(job):
         from vf.runner import run_concur_job
         ops = seq_ops(dict(job, shard=[0, 1]))
         scens = [{"threads": [ops[i] for i in sc[0]], "warm": [ops[i] for i in sc[1]], "post": [ops[i] for i in (sc[2] if len(sc) > 2 else ())]} for sc in CONCUR_SCEN]
-        return run_concur_job(job, scens, run_case, PROPERTY, CONCUR_FILES)
+        return run_concur_job(job, scens, run_case, PROPERTY, CONCUR_FILES, alphabet=ops)
     if job["part"] == "longhist":
         from vf.runner import run_long_job, default_long_ops
         return run_long_job(job, default_long_ops(seq_ops, job), run_case)
